@@ -69,8 +69,11 @@ Proof.
   - cbn [ends_nondigit]. exact IH.
 Qed.
 
+Lemma app_assoc_str (a b c : string) : (a ++ b) ++ c = a ++ (b ++ c).
+Proof. induction a as [|x a IH]; cbn [append]; [reflexivity | rewrite IH; reflexivity]. Qed.
+
 Lemma ma_name_fixed_is_gen_name var i : ma_name_fixed var i = gen_name (var ++ "_") i.
-Proof. unfold ma_name_fixed, gen_name. rewrite <- append_assoc. reflexivity. Qed.
+Proof. unfold ma_name_fixed, gen_name. rewrite app_assoc_str. reflexivity. Qed.
 
 Theorem multiassign_fixed_never_collides var i tag k :
   ends_nondigit tag = true -> ends_underscore tag = false -> ma_name_fixed var i <> gen_name tag k.
